@@ -74,6 +74,16 @@ static inline std::vector<MsgDef> messageAlphabet()
       f.s[4].declared = 3; f.s[4].bytes = {9, 8, 7}; add("cm-strings-vendor3", PT_CM, cmPayload(f)); }
     { IfF f; f.ifid = 0x11223344; f.c[0] = 77; add("if-0-0", PT_IF, ifPayload(f)); }
     { IfF f; f.ifid = 5; f.status = 1; f.streamDeclared = 3; f.streams = {1, 2, 3, 0}; f.vendorDeclared = 5; f.vendor = {9, 8, 7, 6, 5}; add("if-3-5", PT_IF, ifPayload(f)); }
+    // inner lengths at the byte / sign boundaries (0x7F -> 0x80, 0xFF -> 0x100) and with a low byte >= 0x80
+    { CmF f; f.uptime = 5; f.s[0] = strSection(std::string(127, 'd')); f.s[1] = strSection(std::string(253, 's')); f.s[2] = strSection(std::string(255, 'h'));
+      f.s[3] = strSection(std::string(129, 'w')); f.s[4].declared = 384; f.s[4].bytes = patt(384, 70); add("cm-sections-128-254-256-130-384", PT_CM, cmPayload(f)); }
+    { CmF f; for (int i = 0; i < 4; ++i) f.s[i] = strSection("ab"); f.s[4].declared = 200; f.s[4].bytes = patt(200, 71); add("cm-vendor200", PT_CM, cmPayload(f)); }
+    { IfF f; f.ifid = 6; f.status = 1; f.streamDeclared = 129; f.streams = patt(130, 72); f.streams[129] = 0; f.vendorDeclared = 255; f.vendor = patt(255, 73); add("if-129-255", PT_IF, ifPayload(f)); }
+    { IfF f; f.ifid = 7; f.status = 1; f.streamDeclared = 256; f.streams = patt(256, 74); f.vendorDeclared = 128; f.vendor = patt(128, 75); add("if-256-128", PT_IF, ifPayload(f)); }
+    { EthF f; f.dataLen = 128; f.data = patt(128, 76); add("eth128", PT_ETH, ethPayload(f)); }
+    { EthF f; f.dataLen = 1500; f.data = patt(1500, 77); add("eth1500", PT_ETH, ethPayload(f)); }
+    { AnalogF f; f.samples = patt(128, 78); add("analog16x64", PT_ANALOG, analogPayload(f)); }
+    { AnalogF f; f.flags = 1; f.samples = patt(256, 79); add("analog32x64", PT_ANALOG, analogPayload(f)); }
     add("generic5", 0xFE, patt(5, 8));
     add("generic0", 0xFE, Bytes{});
     // inner lengths inconsistent with the payload
